@@ -44,10 +44,16 @@ def compare(mode, m, i):
     raise ValueError(mode)
 
 
+COLLECT = None   # C23: when a list, run_check only records (generator, case) and returns
+
+
 def run_check(pid, tier, seed, cases, mode, oracle, cone=None, replay=None, rule="", assumptions=(),
               extra_cov=None, known_classifier=None, nontrivial=None, profile="debug"):
     """cases: list of dicts with at least 'line' (the program) and free-form metadata.
     oracle(cases, impl_results, model_results) -> list of failure dicts {case_index, what, ...}."""
+    if COLLECT is not None:
+        COLLECT.extend((pid, c) for c in cases)
+        return 0
     res = C.Result(pid, tier, seed)
     pr = C.proof_step(res, pid, cone)
     if replay:
